@@ -37,8 +37,14 @@ RULE = ('cases are (table with labels over any printable text incl. \\n \\r \\t,
 ASSUMPTIONS = ['reference model vlib/oracle.py for todict(); loaded-vs-recomputed comparison uses only public queries',
                'another interpreter = another process of the same Python build']
 
-LABEL = st.text(st.one_of(st.characters(whitelist_categories=('L', 'M', 'N', 'P', 'S', 'Zs')),
-                          st.sampled_from(list('\n\r\t ,"\'|#\\'))), min_size=1, max_size=6)
+LABEL = st.one_of(
+    st.text(st.one_of(st.characters(whitelist_categories=('L', 'M', 'N', 'P', 'S', 'Zs')),
+                      st.sampled_from(list('\n\r\t ,"\'|#\\'))), min_size=1, max_size=6),
+    st.text(st.one_of(st.characters(whitelist_categories=('L', 'M', 'N', 'P', 'S', 'Zs')),
+                      st.sampled_from(list('\n\r\t ,"\'|#\\'))), min_size=1, max_size=6),
+    # whole labels that are words of the encodings themselves
+    st.sampled_from(['lattice', 'objects', 'properties', 'context', "'lattice'", '"lattice"', 'None', 'True', 'null', 'true',
+                     '{', '}', '(', ')', '[', ']', ',', ':', "'", '"', '0', '1', '(0,)', "{'lattice': []}"]))
 
 PATHS = ['dict', 'json-text', 'tojson-path', 'tojson-pathlib', 'tojson-fileobj', 'literal-string',
          'literal-file-utf8', 'literal-file-utf16']
